@@ -7,7 +7,8 @@ FRESH=len(sys.argv)>2 and sys.argv[2]=='--fresh'  # no list of earlier changes: 
 os.makedirs(D,exist_ok=True)
 claimed=[c for c in json.load(open('/verif/MANIFEST.json'))['claims']] if False else None
 props=[json.loads(l) for l in open('/verif/properties.jsonl')]
-na={'C16'}
+na={k for k,v in json.load(open('/verif/tools/claims.json')).items() if v.get('claim',True) is False}
+ONLY=set(sys.argv[3:])  # optional: property ids to prepare
 T='''# Task: seed realistic property-breaking changes into gopar
 
 Your working directory is `@D@/@ID@`, a scratch git worktree of the Go project
@@ -88,6 +89,7 @@ Leave the worktree clean (only `_out/` untracked) when you finish.
 for p in props:
     pid=p['id']
     if pid in na: continue
+    if ONLY and pid not in ONLY: continue
     tried=[]
     for mp in sorted(glob.glob('/verif/seeded/%s-*/meta.json'%pid)):
         m=json.load(open(mp))
